@@ -39,6 +39,10 @@ class Env:
         self.timeouts_used = False
         self.empties = 0
 
+    def reset(self, streams, healthy_len, spurious):
+        """a further call on the same MultiprocessingSolver object: new worker processes, new queue"""
+        self.__init__(self.E, streams, healthy_len, spurious)
+
     def pending(self):
         return [w for w in range(len(self.streams)) if self.ptr[w] < len(self.streams[w])]
 
@@ -155,8 +159,9 @@ class FakeWorker:
 
 
 @register("reducer")
-def make(mode, workers=2, K=2, faults=False, spurious=1, select=("C11",), known=()):
-    """mode: 'solve' | 'minimize' | 'maximize'"""
+def make(mode, workers=2, K=2, faults=False, spurious=1, select=("C11",), known=(), prior=None):
+    """mode: 'solve' | 'minimize' | 'maximize'; prior: a first, healthy call ('solve' | 'minimize') made on the SAME
+    MultiprocessingSolver object before the call under test (every worker then only announces completion)"""
     select = set(select)
     B = 1 << 30
 
@@ -191,14 +196,15 @@ def make(mode, workers=2, K=2, faults=False, spurious=1, select=("C11",), known=
                 dead_at.append(len(msgs))
                 streams.append(msgs)
         any_dead = any(dead_at[w] < healthy_len[w] for w in range(workers))
-        env = Env(E, streams, healthy_len, spurious)
+        prior_streams = [[(w, None, SArray([0] * NSTAT, (NSTAT,), dtype="int64"))] for w in range(workers)]
+        env = Env(E, prior_streams, [1] * workers, 0) if prior else Env(E, streams, healthy_len, spurious)
         FP, FQ = make_stubs(env)
         saved = (MPS.Process, MPS.Queue)
         MPS.Process, MPS.Queue = FP, FQ
         E.ctx = dict(dead_at=dead_at, nsol=[len(s) for s in streams], mode=mode)
 
         def wit(m=None):
-            return dict(harness="reducer", mode=mode, workers=workers, nsol=[healthy_len[w] - 1 for w in range(workers)], dead_at=dead_at, healthy=[dead_at[w] == healthy_len[w] for w in range(workers)])
+            return dict(harness="reducer", mode=mode, prior=prior, workers=workers, nsol=[healthy_len[w] - 1 for w in range(workers)], dead_at=dead_at, healthy=[dead_at[w] == healthy_len[w] for w in range(workers)])
 
         def viol(prop, kind, m=None, **kw):
             v = dict(prop=prop, kind=kind, site="MultiprocessingSolver." + ("solve" if mode == "solve" else "optimize"), cls=None, **wit(m))
@@ -207,6 +213,19 @@ def make(mode, workers=2, K=2, faults=False, spurious=1, select=("C11",), known=
 
         try:
             mp = MPS.MultiprocessingSolver([FakeWorker() for _ in range(workers)])
+            if prior:
+                try:
+                    if prior == "solve":
+                        first = list(mp.solve())
+                    else:
+                        first = mp.minimize(0)
+                except Exception as ex:  # noqa
+                    viol("C11", "raises-on-healthy-run", detail="first call on the object: " + repr(ex))
+                    return
+                if first not in ([], None):
+                    viol("C11", "solutions-not-the-multiset-union", detail="first call: workers sent no solution", yielded=repr(first)[:80])
+                    return
+                env.reset(streams, healthy_len, spurious)
             raised = None
             got = []
             best = None
@@ -296,13 +315,13 @@ def make(mode, workers=2, K=2, faults=False, spurious=1, select=("C11",), known=
             # the reducer polls an empty queue for ever (get(timeout) raising Empty again and again): it does not return
             c = getattr(E, "ctx", {})
             E.acc.count("polls-forever")
-            E.acc.violation(dict(prop="C18" if faults else "C11", kind="blocks-forever", site="MultiprocessingSolver." + ("solve" if mode == "solve" else "optimize"), cls=None, harness="reducer", mode=mode, workers=workers, dead_at=c.get("dead_at"), nsol=c.get("nsol"), detail="polls the queue without end: " + str(exc)))
+            E.acc.violation(dict(prop="C18" if faults else "C11", kind="blocks-forever", site="MultiprocessingSolver." + ("solve" if mode == "solve" else "optimize"), cls=None, harness="reducer", mode=mode, prior=prior, workers=workers, dead_at=c.get("dead_at"), nsol=c.get("nsol"), detail="polls the queue without end: " + str(exc)))
             return
         if kind == "hang":
             c = getattr(E, "ctx", {})
             E.acc.count("hang")
             dead = c.get("dead_at")
-            v = dict(prop="C18" if faults else "C11", kind="blocks-forever", site="MultiprocessingSolver." + ("solve" if mode == "solve" else "optimize"), cls=None, harness="reducer", mode=mode, workers=workers, dead_at=dead, nsol=c.get("nsol"), detail=str(exc))
+            v = dict(prop="C18" if faults else "C11", kind="blocks-forever", site="MultiprocessingSolver." + ("solve" if mode == "solve" else "optimize"), cls=None, harness="reducer", mode=mode, prior=prior, workers=workers, dead_at=dead, nsol=c.get("nsol"), detail=str(exc))
             ks = [k for k in known if k["kind"] == "blocks-forever" and k["prop"] == v["prop"]]
             if ks:
                 v["cls"] = ks[0]["cls"]
